@@ -461,7 +461,8 @@ def main():
         mod = importlib.import_module(rec["replay"]["module"])
         return getattr(mod, rec["replay"]["func"])(rec)
     C.load_all()
-    con = C.CONTRACTS.get((rec["file"], rec["function"]))
+    con = C.CONTRACTS.get((rec["file"], rec.get("contract_key") or
+                           rec["function"]))
     if con is None:
         print("no contract for the function in the record")
         return 0
